@@ -16,8 +16,14 @@ echo "demo exit with change: $WITH   without: $WITHOUT"
 /verif/tools/baseline.sh $WT; BL=$?
 echo "baseline rc: $BL"
 cd /verif
-if ! git -C /repo diff --quiet; then echo "/repo is dirty, abort"; exit 9; fi
-git -C /repo apply /verif/seeded/$NAME/patch.diff || { echo "patch does not apply"; exit 9; }
+# SEED_VIA=worktree: run the checks against the (patched) scratch worktree instead of patching /repo
+# (used while a background run is reading /repo); the default follows the brief: apply to /repo, run, undo.
+if [ "${SEED_VIA:-repo}" = "worktree" ]; then
+  export VQ_REPO=$WT
+else
+  if ! git -C /repo diff --quiet; then echo "/repo is dirty, abort"; exit 9; fi
+  git -C /repo apply /verif/seeded/$NAME/patch.diff || { echo "patch does not apply"; exit 9; }
+fi
 RES=""
 for p in $IDS; do
   out=$(/venv/bin/python -m vq.run check $p --tier quick 2>&1 | grep -v conda); rc=$?
@@ -26,5 +32,5 @@ for p in $IDS; do
   echo "$out" | tail -1 | cut -c1-200
   RES="$RES $p:violations=$nv"
 done
-git -C /repo checkout -- .
+if [ "${SEED_VIA:-repo}" != "worktree" ]; then git -C /repo checkout -- .; fi
 echo "RESULT $NAME demo_with=$WITH demo_without=$WITHOUT baseline_rc=$BL $RES"
